@@ -111,17 +111,17 @@ def result_recorder(prog):
 
 
 def unlocked_waiter(prog):
-    """The coroutine returned by start_deps_unlocked: a coroutine nested in the body that forks
-    `redo-unlocked`, which awaits a jobserver::Job and is not the result recorder."""
-    rr = result_recorder(prog)
+    """The coroutine returned by the body that forks `redo-unlocked` (the FORK_START caller that is
+    not start_self): the coroutine constructed there that awaits a jobserver::Job."""
+    ss = start_self(prog)
+    forkers = [b for b in bodies_calling(prog, FORK_START) if b.key != ss.key and not b.key.startswith("jobserver::")]
+    f = the(forkers, "forks redo-unlocked")
     out = []
-    for b in prog.bodies.values():
-        if not b.coroutine or b.key == rr.key:
-            continue
-        if any(c.endswith("jobserver::Job as core::future::future::Future>::poll") for (_, _, _, c) in BA.of(b).awaits()):
-            if any("state::Lock" == ty for ty in b.locals):
-                out.append(b)
-    return the(out, "coroutine awaiting a Job while owning a Lock (not the result recorder)")
+    for (bb, j, dest, k, ops) in closure_sites(f):
+        b = prog.bodies.get(k)
+        if b is not None and b.coroutine and any((c or "").endswith("jobserver::Job as core::future::future::Future>::poll") for (_, _, _, c) in BA.of(b).awaits()):
+            out.append(b)
+    return the(out, "coroutine awaiting the redo-unlocked Job")
 
 
 def dirtiness(prog):
